@@ -36,3 +36,14 @@ def errHex (b : Bytes) : String := Bytes.toHex b
 /-- `&T{f1, f2, …}` for an error struct whose fields are kept: "T|f1|f2|…" -/
 def errWith (name : String) (fields : List String) : Option String := some ("|".intercalate (name :: fields))
 end ModVerif.GoRt
+
+namespace ModVerif.GoRt
+open ModVerif
+/-- the empty accumulator of a fresh hash.Hash -/
+def emptyBytesN : Bytes := []
+/-- binary.BigEndian.PutUint32(b, v): overwrites the first four bytes (panics on a shorter slice) -/
+def bePut32 (b : Bytes) (v : Int) : M Bytes :=
+  if b.length < 4 then throw .panic else
+  let n := (v % 4294967296).toNat
+  pure ([UInt8.ofNat (n / 16777216), UInt8.ofNat (n / 65536 % 256), UInt8.ofNat (n / 256 % 256), UInt8.ofNat (n % 256)] ++ b.drop 4)
+end ModVerif.GoRt
